@@ -40,7 +40,29 @@ type Env struct {
 	SyncOps int
 	// Depth is the current call depth of instrumented functions.
 	Depth int
+	// Work counts function entries and loop iterations of the instrumented analysis module: a loop that
+	// spins without iterating a map and without recursing still makes progress on this counter.
+	Work int
 }
+
+// WorkLimit is the number of function entries + loop iterations of instrumented code beyond which an execution
+// is declared divergent (normal executions of the bounded inputs stay below 1% of it; see evidence notes).
+const WorkLimit = 400_000
+
+// MaxWork is the largest Work value seen in a finished execution of this process (reported in the evidence).
+var MaxWork int
+
+func work(site int) {
+	e := Cur
+	e.Work++
+	if e.Work > WorkLimit && e.Horizon > 0 {
+		e.Work = 0
+		panic(&HorizonError{Site: site, Steps: -2})
+	}
+}
+
+// Loop is called at the start of every iteration of every loop of the instrumented analysis module.
+func Loop(site int) { work(site) }
 
 // DepthLimit is the call depth of instrumented functions beyond which an execution is declared divergent
 // (unbounded recursion), long before the goroutine stack overflows.
@@ -48,6 +70,7 @@ const DepthLimit = 4000
 
 // Enter is called at the entry of every instrumented function.
 func Enter(site int) {
+	work(site)
 	e := Cur
 	e.Depth++
 	if e.Depth > DepthLimit && e.Horizon > 0 {
@@ -68,6 +91,9 @@ var Cur = &Env{}
 
 // Reset installs a fresh environment.
 func Reset(p Policy, c Chooser, horizon int) *Env {
+	if Cur.Work > MaxWork {
+		MaxWork = Cur.Work
+	}
 	Cur = &Env{Policy: p, Chooser: c, Horizon: horizon}
 	return Cur
 }
@@ -79,6 +105,9 @@ type HorizonError struct {
 }
 
 func (h *HorizonError) Error() string {
+	if h.Steps == -2 {
+		return fmt.Sprintf("mcrt: work limit exceeded (%d function entries and loop iterations: a loop that never ends) at site %d", WorkLimit, h.Site)
+	}
 	if h.Steps < 0 {
 		return fmt.Sprintf("mcrt: call depth limit exceeded (unbounded recursion) at site %d", h.Site)
 	}
